@@ -162,17 +162,33 @@ class Fn:
     SKIP_ADAPTORS = ('std::iter::Iterator::filter', 'std::iter::Iterator::filter_map', 'std::iter::Iterator::skip_while')
     STOP_ADAPTORS = ('std::iter::Iterator::take_while', 'std::iter::Iterator::map_while')
 
+    def returning(self):
+        """blocks from which a `return` can be reached: an edge into any other block leads to a panic (a failed
+        assertion, `panic!`, `unreachable!`, `unwrap` on nothing), not to a result computed from less work"""
+        if getattr(self, '_returning', None) is None:
+            ok = {i for i, b in enumerate(self.blocks) if b['term'][0] == 'return'}
+            st = list(ok)
+            while st:
+                x = st.pop()
+                for p_ in self.pred[x]:
+                    if p_ not in ok:
+                        ok.add(p_)
+                        st.append(p_)
+            self._returning = ok
+        return self._returning
+
     def exit_profile(self):
         """(early exits, skips) of the loops of this function on the canonical (lowered) control-flow graph:
-        early exits = edges that leave a loop from anywhere but the loop's own test (Fn.loop_test) - break, return, `?`,
-        the hit of a lowered any / all / find / position - plus take_while adaptors;  skips = back edges beyond one per
+        early exits = edges that leave a loop from anywhere but the loop's own test (Fn.loop_test) towards a block from
+        which the function can still return - break, return, the hit of a lowered any / all / find / position (not `?`,
+        and not the way into a panic: that stops the computation, it does not skip part of it) - plus take_while adaptors;  skips = back edges beyond one per
         loop (`continue`, and the not-selected branch of a lowered consumer) plus filter adaptors."""
         early = skips = 0
         for head, body in self.loops().items():
             chain, callees, sw = self.loop_test(head)
             for b in body:
                 for s_ in self.succ[b]:
-                    if s_ not in body and b != sw and not self.is_try_switch(b) and self.blocks[s_]['term'][0] != 'unreachable':
+                    if s_ not in body and b != sw and not self.is_try_switch(b) and s_ in self.returning():
                         early += 1
             backs = [b for b in body if head in self.succ[b]]
             skips += max(0, len(backs) - 1)
